@@ -61,6 +61,13 @@ def must_match(ctx, rules):
         bb = next((r for k, r in res.items() if "BadCursorB" in k), None)
         got["R-SELFMADE"] = bool(good is not None and not good[0] and ba and any("without the guard" in x for x in ba[0])
                                  and bb and any("yields nothing" in x for x in bb[0]))
+    if "R-ORDERPANIC" in rules:
+        from .rules_bounds import orderpanic_scan
+        f = prog.fn("fx_orderpanic")
+        g = prog.fn("fx_orderpanic_ok")
+        a = f is not None and len(orderpanic_scan(v, f)[1]) == 2
+        b = g is not None and orderpanic_scan(v, g) == (1, [])
+        got["R-ORDERPANIC"] = a and b
     blind = [r for r, ok in got.items() if not ok]
     if blind:
         raise CheckError("rule(s) %s do not match their instance in the positive fixture: the rule is blind" % blind)
